@@ -3,5 +3,5 @@ Require Extraction.
 Require Import ExtrOcamlBasic.
 From Coq Require Import ZArith NArith.
 From SDC Require Import Location.Quote Location.Loc Wsd.Match Wsd.Udp Wsd.Table Wsd.Gen_Match.
-Extraction "Extract/wsd_match_model.ml" run_match step node0 filter_services t_values split_tbl match_consts
-  mkService BinNat.N.to_nat BinInt.Z.of_N.
+Extraction "Extract/wsd_match_model.ml" run_match run_filter step node0 filter_services t_values split_tbl match_consts
+  mkService mkBx BinNat.N.to_nat BinInt.Z.of_N.
